@@ -87,7 +87,10 @@ where
     let res = r.run(&strat, |v| {
         let mut st = state.borrow_mut();
         let (ctx, first) = &mut *st;
-        match f(ctx, &v) {
+        let res = std::panic::catch_unwind(std::panic::AssertUnwindSafe(|| f(ctx, &v))).unwrap_or_else(|p| {
+            Err(Fail::new("panic", format!("panic while executing a case: {}", panic_text(&p))))
+        });
+        match res {
             Ok(()) => Ok(()),
             Err(fail) => {
                 if first.is_none() && ctx.is_known_open(&fail.key).is_some() {
@@ -118,7 +121,10 @@ where
         Err(TestError::Fail(_, v)) => {
             // re-run the minimal value to get its exact message
             ctx.counting = false;
-            let fail = match f(ctx, &v) {
+            let rerun = std::panic::catch_unwind(std::panic::AssertUnwindSafe(|| f(ctx, &v))).unwrap_or_else(|p| {
+                Err(Fail::new("panic", format!("panic while executing a case: {}", panic_text(&p))))
+            });
+            let fail = match rerun {
                 Err(fl) => fl,
                 Ok(()) => first.unwrap_or_else(|| Fail::new("unknown", "failure did not reproduce on the shrunk value")),
             };
@@ -130,4 +136,18 @@ where
             None
         }
     }
+}
+
+pub fn panic_text(p: &Box<dyn std::any::Any + Send>) -> String {
+    p.downcast_ref::<String>()
+        .cloned()
+        .or_else(|| p.downcast_ref::<&str>().map(|s| s.to_string()))
+        .unwrap_or_else(|| "non-string panic payload".into())
+}
+
+/// Run one case of an enumeration, turning a panic in the code under test into a failure.
+pub fn guard<T>(f: impl FnOnce() -> Result<T, Fail>) -> Result<T, Fail> {
+    std::panic::catch_unwind(std::panic::AssertUnwindSafe(f)).unwrap_or_else(|p| {
+        Err(Fail::new("panic", format!("panic while executing a case: {}", panic_text(&p))))
+    })
 }
